@@ -14,7 +14,7 @@ def run(chk, tier):
                 'pattern state; K1/K6: the match counter is bumped from one site, once, on the selected pattern only; K5: pattern '
                 'lists are append-only and built in clause order (assembler push, Each::call/deconstruct, tuple order); K6: the list '
                 'consulted is the one stored under TypeId::of::<F>() of the called method.')
-    for cfg in configs(tier, quick=('std',), thorough=('std', 'nostd-spin', 'mocks')):
+    for cfg in configs(tier, quick=('std',), thorough=('std', 'mocks', 'nostd-spin', 'nostd')):
         F = load(chk, cfg)
         E.selector_rules(chk, F, cfg, r_scan='R01.1', r_pure='R01.2', r_ord=None, r_bump=None)
         fn, paths, rows = E.eval_dyn_table(chk, F, 'R01.3.table', cfg)
